@@ -262,7 +262,7 @@ class Gen:
                       "bodies": [b["body"] for b in branches], "rets": [b.get("ret") for b in branches]}
             if cfg is not None:
                 st["cfg"] = cfg
-            elif k == "parallel" and not prof.get("early_exit", True):
+            elif not prof.get("early_exit", True):
                 st["cfg"] = {"tol": nb}
             return st
         raise AssertionError(k)
